@@ -196,7 +196,11 @@ fn process_spcr_block<H: Host>(emulator: &mut Emulator<H>, machine_id: u32, bloc
     // Only 128 and 48k models supported currently. Skipping block_data[2] (union)
 
     // chFe
+    // The port write takes emulated time. The position in the frame belongs to the snapshot
+    // (dwCyclesStart of the Z80R chunk) and must not depend on where in the file SPCR is stored
+    let frame_clocks = emulator.controller.frame_clocks;
     emulator.controller.write_io(0x0fe, block_data[3]);
+    emulator.controller.frame_clocks = frame_clocks;
 
     // chBorder
     // Setting the border after the out to 0xfe above because that too
